@@ -492,8 +492,37 @@ def enumerate_sites(srcs, seed, per_field, rng):
     return tasks, len(by)
 
 
+def enumerate_order_sites(srcs, seed, per_sig, rng):
+    """[(src, path, cls, field, k)] for the list-order family: per (class, field, set of element kinds in the list) up to
+    `per_sig` lists with at least two items, the longest first (ties: first found) — so every list that mixes element
+    kinds (references and inline elements, the parameter classes) is reached in each combination that occurs"""
+    by = collections.OrderedDict()
+    for src in srcs:
+        try:
+            db = open_db(src, seed)
+        except Exception:
+            continue
+        for path, cls, fname, kinds, n in L.order_sites(db):
+            if (cls, fname) in SKIP_FIELDS:
+                continue
+            by.setdefault((cls, fname, kinds), []).append((n, src, path))
+    tasks = []
+    for (cls, fname, kinds), lst in by.items():
+        best = sorted(range(len(lst)), key=lambda i: (-lst[i][0], i))
+        picks = best[:1]
+        rest = best[1:]
+        if per_sig > 1 and rest:
+            rng.shuffle(rest)
+            picks += rest[:per_sig - 1]
+        for j, i in enumerate(picks):
+            tasks.append((lst[i][1], lst[i][2], cls, fname, j))
+    return tasks, len(by), sum(1 for (_, _, kinds) in by if len(kinds) > 1)
+
+
 def perturb_features(r):
     cls = "OdxLinkRef" if (r["field"] == "ref_docs") else r["cls"]
+    if r.get("family") == "order":      # one signature per list field (the kind of re-ordering is in the witness)
+        return [f"{cls}.{r['field']}", "list-order"]
     if r.get("family") == "falsy":      # one signature per declaring class: LONG-NAME of 60 element classes is one template line
         return [f"{r.get('decl') or cls}.{r['field']}", r.get("kind") or "falsy"]
     return [f"{cls}.{r['field']}"]
@@ -502,8 +531,15 @@ def perturb_features(r):
 def report_perturbation(ctx, r):
     """turn one perturbation result into bookkeeping / a violation"""
     st = r["status"]
-    if r.get("family") == "falsy" and st == "skipped" and r.get("why") == "no-variant":
-        return          # not a scalar field
+    if r.get("family") in ("falsy", "order") and st == "skipped" and r.get("why") == "no-variant":
+        return          # not a scalar field / not a list with two items
+    if r.get("family") == "order":      # one evaluated case per order that was written and loaded
+        tv = r.get("tried_values") or []
+        for kind, val in tv[:-1] if st in ("same", "diff", "xml-parse-error", "write-raises") else tv:
+            ctx.case(("perturb", r["src"], r["path"], r["field"], val), nontrivial=True)
+        for kind, val in tv:
+            ctx.histo("order_perturbation_kind", kind if kind.count("-") == 1 else "order-by-kind-" + kind.rsplit("-", 1)[-1])
+        ctx.count("order_perturbations", len(tv))
     ctx.histo("perturbation_status", st)
     ctx.histo("perturbation_kind", r.get("kind"))
     ctx.case(("perturb", r["src"], r["path"], r["field"], str(r.get("value"))), nontrivial=st in ("same", "diff", "xml-parse-error"))
@@ -1051,6 +1087,12 @@ def run(ctx):
             jobs += [(s, p, c, f, k + 1, None, donors, "default") for (s, p, c, f, k) in tasks if k == 0]
         # falsy-but-present boundary values (0, 0.0, False, "") for every scalar field: `{% if x %}` vs `{% if x is not none %}`
         jobs += [(s, p, c, f, k, None, donors, "falsy") for (s, p, c, f, k) in tasks if k <= (1 if big else 0)]
+        # every order of a list the in-memory database can have (the parser only ever produces its own normal form):
+        # lists mixing element kinds partitioned / interleaved by kind, every list reversed / rotated / swapped
+        otasks, n_lists, n_mixed = enumerate_order_sites(srcs, ctx.seed, 3 if big else 1, ctx.sub_rng("order"))
+        ctx.count("order_list_signatures", n_lists)
+        ctx.count("order_list_signatures_mixed_kinds", n_mixed)
+        jobs += [(s, p, c, f, k, None, donors, "order") for (s, p, c, f, k) in otasks]
         results = pool.map(_wperturb, jobs, chunksize=8)
         for r in results:
             report_perturbation(ctx, r)
